@@ -162,6 +162,10 @@ func (x *Exec) assertion(c *Term, msg string) {
 		x.res.AssertsTrivial++
 		return
 	}
+	if v, ok := x.known[c]; ok && v {
+		x.res.Asserts++
+		return
+	}
 	neg := x.tc.BNot(c)
 	r, m := x.check(neg, x.eng.cfg.AssertTimeoutMs, x.modelVars())
 	switch r {
